@@ -7,7 +7,7 @@ import tempfile
 from hypothesis import strategies as st
 
 from vf import gen_eblif, gen_edif, gen_ir, gen_verilog, model
-from vf.core import Prop, Result
+from vf.core import Prop, Result, canonical_json as core_json
 from vf.props.c03 import API_NAMES
 from vf.props.c05 import NAMES
 from vf.props.c06 import parse_text
@@ -252,8 +252,14 @@ class C16(Prop):
         before = snapshot(nl)
         with tempfile.TemporaryDirectory() as td:
             p1, p2 = os.path.join(td, "a" + ext), os.path.join(td, "b" + ext)
+            via_method = len(core_json(case)) % 2 == 1   # Netlist.compose is the other entry point
+            if via_method:
+                res.label("entry-Netlist.compose")
             try:
-                sdn.compose(nl, p1, **kw)
+                if via_method:
+                    nl.compose(p1, **kw)
+                else:
+                    sdn.compose(nl, p1, **kw)
             except Exception as e:  # noqa whether compose may refuse is decided by C03/C04/C18
                 res.label("compose-raised")
                 return res
@@ -278,7 +284,10 @@ class C16(Prop):
             except Exception:  # noqa (C11/C13's business)
                 res.label("query-raised")
             try:
-                sdn.compose(nl, p2, **kw)
+                if via_method:
+                    nl.compose(p2, **kw)
+                else:
+                    sdn.compose(nl, p2, **kw)
             except Exception as e:  # noqa
                 res.violate("C16:%s:second-compose-raises:%s" % (fmt, type(e).__name__), repr(e)[:300])
                 return res
